@@ -78,7 +78,12 @@ def bfs_limiter(arg):
                                     'admitted' if exp else 'refused', h2))
                 transitions += 1
                 outcomes.add(tuple(obs)[-3:])
-                key = (real.R, None if real.T is None else round(now - real.T, 6))
+                # (the reference's state belongs to the key: histories that
+                # leave the real object in one state but the reference in
+                # different ones have different futures)
+                key = (real.R, None if real.T is None else round(now - real.T, 6),
+                       ref.count,
+                       None if ref.start is None else round(now - ref.start, 6))
                 if (d, key) not in states:
                     states.add((d, key))
                     nxt.append(h2)
